@@ -125,6 +125,13 @@ func (m *MemSymbols) scalarOf(kind, rowID string, parts []string) Val {
 			if p.NoTags {
 				return NullV()
 			}
+			if len(parts) == 4 && parts[1] == "sub" && parts[2] == "deep" {
+				v, ok := p.DeepTags[parts[3]]
+				if !ok {
+					return NullV()
+				}
+				return v
+			}
 			if len(parts) == 3 && parts[1] == "sub" {
 				v, ok := p.SubTags[parts[2]]
 				if !ok {
